@@ -52,8 +52,8 @@ func VerifC25_stickySymbolicGenerations() {
 			in = verifShape(2, 2, []int{2, 1}, false, false)
 		} else {
 			in = verifShapeSubs(3, 3, []int{1, 1}, false, false, true)
-			if len(in.subs[0]) < 2 {
-				return // three members: m0 subscribes to both topics
+			if len(in.subs[0]) < 2 || in.topics["t0"] == 0 || in.topics["t1"] == 0 {
+				return // three members: m0 subscribes to both topics, one partition each
 			}
 		}
 	} else {
